@@ -110,7 +110,7 @@ func vpCheckAnswered(w *vpWorld, bt *vpBatch) {
 //vp:override (*bs.bloomEntrySets).buildFilters=vpBuildFiltersStub
 //vp:override bs.encodeFilterSection=vpEncodeSectionStub
 //vp:maxsteps 300000
-//vp:bounds ingest buffer 2 (thorough 1..2), MaxBufferedRows 1..2; a history of up to 3 calls drawn from IngestRows(good row | empty batch | unmarshalable row | good row without a done channel) and Flush, Start landing before any of them or after all (batches accepted before Start); CreateFile and MetaStore.Update fail or succeed arbitrarily at every call; then Stop(background); goroutines run to their next blocking point
+//vp:bounds ingest buffer 2 (thorough 1..2), MaxBufferedRows 1..2; a history of up to 3 (thorough 4) calls drawn from IngestRows(good row | empty batch | unmarshalable row | good row without a done channel) and Flush, Start landing before any of them or after all (batches accepted before Start); CreateFile and MetaStore.Update fail or succeed arbitrarily at every call; then Stop(background); goroutines run to their next blocking point
 func H_C05_lifecycle_histories_answer_every_accepted_batch_once() {
 	w := vpNewWorld()
 	// one flush's fault paths are C06's subject; here a flush fails at CreateFile or at the commit, or not at all
@@ -118,7 +118,7 @@ func H_C05_lifecycle_histories_answer_every_accepted_batch_once() {
 	c := vpSysCfg{ingestBuf: vpBound(2, 1+nondetChoice(2)), maxBufferedRows: 1 + nondetChoice(2), maxRowGroupRows: 1000, maxBufferedTime: time.Hour}
 	b := vpNewIngestSystem(w, c)
 	vpSetClock(2)
-	nOps := 1 + nondetChoice(3)
+	nOps := 1 + nondetChoice(vpBound(3, 4))
 	startAt := nondetChoice(nOps + 1)
 	var batches []*vpBatch
 	started := false
@@ -509,16 +509,16 @@ func H_C08_stop_with_blocked_callers_returns_by_its_deadline() {
 //vp:override (*bs.bloomEntrySets).buildFilters=vpBuildFiltersStub
 //vp:override bs.encodeFilterSection=vpEncodeSectionStub
 //vp:maxsteps 400000
-//vp:bounds started engine, ingest buffer 1..2, MaxBufferedRows 1..2, store wedged inside CreateFile; one producer goroutine submitting up to 9 one-row batches back to back, all with or all without a done channel; observed once every goroutine has parked, then the store is released and the engine stopped
+//vp:bounds started engine, ingest buffer 1..2 (thorough 3), MaxBufferedRows 1..2 (thorough 3), store wedged inside CreateFile; one producer goroutine submitting up to 14 one-row batches back to back, all with or all without a done channel; observed once every goroutine has parked, then the store is released and the engine stopped
 func H_C09_stalled_flushing_blocks_producers_within_a_bound() {
 	w := vpNewWorld()
 	w.failCreate, w.failWrite, w.failClose, w.failUpdate, w.failTombstone = false, false, false, false, false
 	w.wedge = make(chan struct{})
-	c := vpSysCfg{ingestBuf: 1 + nondetChoice(2), maxBufferedRows: 1 + nondetChoice(2), maxRowGroupRows: 1000, maxBufferedTime: time.Hour}
+	c := vpSysCfg{ingestBuf: 1 + nondetChoice(vpBound(2, 3)), maxBufferedRows: 1 + nondetChoice(vpBound(2, 3)), maxRowGroupRows: 1000, maxBufferedTime: time.Hour}
 	b := vpNewIngestSystem(w, c)
 	vpSetClock(2)
 	b.Start()
-	const total = 9
+	const total = 14
 	accepted := 0
 	producerDone := false
 	var dones []chan error
